@@ -79,6 +79,10 @@ var cliExprs = []string{"$.a", "$", "$..a", "$.b", "@.a", "$.a[0]", "avg($..a)",
 
 // lines on which ONE expression succeeds or fails depending on the data (a zero divisor, a string among numbers, an empty array):
 // in -m mode a line that fails at run time must leave the answers to the other lines as they are
+// white space that is not JSON white space (\v \f U+0085 U+00A0 U+2028) at the edges of a line: the library rejects such a text, in
+// every mode
+var cliForeignWs = []string{"1\f", "\v{\"a\":1}", "[1]\u00a0", "\u0085true", "\"x\"\u2028", "\f", "{\"a\":[2]}\v", "\u00a0[1,2]", "2"}
+
 var cliDataDocs = []string{`{"a":[0]}`, `{"a":[5]}`, `{"a":[5,2,3]}`, `{"a":[1,3]}`, `{"a":[1,"s"]}`, `{"a":[]}`, `{"a":[2]}`, `{"a":{"b":4}}`, `{"a":[0,4]}`, `{"a":["s"]}`, `{"a":7}`}
 var cliDataExprs = []string{"$.a[?(10 % @ == 0)]", "$.a[?(@ > 1)]", "$.a[(@.length - 1)]", "$.a[?(12 / @ > 2)]", "$.a[?(@ * 2 > 3)]", "$.a[0]", "$.a[?(@ % 2 == 1)]", "$.a.b", "10 % $.a[0]"}
 
@@ -108,7 +112,10 @@ func streamCli(o *Out, r *Rng, tier string) {
 			nl = 0
 		}
 		docs := cliDocs
-		if r.Chance(20) {
+		if r.Chance(8) {
+			docs, nl = cliForeignWs, 2+r.Intn(4)
+			o.Stat("cli.foreign-white-space-lines")
+		} else if r.Chance(20) {
 			expr, docs, nl = r.Pick(cliDataExprs), cliDataDocs, 2+r.Intn(4)
 			o.Stat("cli.data-dependent-lines")
 		}
